@@ -65,7 +65,7 @@ CHECKS = {
             "Every enabled history of length <= 3 (4 thorough) over a 32-letter alphabet of ownership operations on 2 slots for four type pairs, replayed from an "
             "empty pool, plus seeded random histories of 200 operations on 4 slots; after every operation every live field equals its model at every cell through "
             "fresh and long-lived views; ASan/LSan/UBSan watch the special members.",
-            "Self-move-assignment is treated as moved-from; moved-from fields are never viewed.", "DESIGN.md section 4 C12"),
+            "Self-assignment (copy and move) must preserve the field; moved-from fields are never viewed.", "DESIGN.md section 4 C12"),
     "C13": ("exploration", "generate-compile-RUN of every API member per generated stack under ASan+UBSan, per-member compile attribution; compiler verdict for the ill-kinded catalogue",
             "For each generated well-kinded stack every member the property lists is compiled and executed, and the resulting field checked against the reference "
             "interpreter; compile failures are attributed to the member; the CUDA array backend is exercised under a host shim; a catalogue of ill-kinded compositions "
